@@ -103,7 +103,7 @@ Proof.
 Qed.
 
 Lemma read_chunk_pos : (1 <= N.to_nat READ_CHUNK)%nat.
-Proof. vm_compute. lia. Qed.
+Proof. apply Nat.leb_le. vm_compute. reflexivity. Qed.
 
 Lemma read_size_pos s n : read_size s = Some n -> (1 <= N.to_nat n)%nat.
 Proof.
@@ -397,7 +397,7 @@ Qed.
 
 (* poll *)
 Lemma write_chunk_fits : (N.to_nat WRITE_SIZE <= PIPE_BUF)%nat.
-Proof. vm_compute. repeat constructor. Qed.
+Proof. apply Nat.leb_le. vm_compute. reflexivity. Qed.
 
 Lemma pollout_free p zone : pipe_ok p -> pollout_ok p zone = true -> (PIPE_BUF <= free p)%nat.
 Proof.
